@@ -31,13 +31,23 @@ def _pred_ok(pred, inp):
 
 def run(pid, cfg, failed, findings, repo, scratch):
     os.makedirs(OUT, exist_ok=True)
-    by_ob = {}
+    by_ob_all = {}
     for f in failed:
-        by_ob.setdefault(f["obligation"], []).append(f)
+        by_ob_all.setdefault(f["obligation"], []).append(f)
     log = []
     fam = cfg.get("replay")
+    pre_known = []
+    by_ob = {}
+    for ob, fl in by_ob_all.items():
+        kf = [k for k in findings if k.get("obligation") == ob and not k.get("input_predicate")]
+        if kf:
+            pre_known.append("%s: %s" % (ob, kf[0].get("what", kf[0].get("site", ""))))
+        else:
+            by_ob[ob] = fl
     fails_by_fn = {}
-    if fam == "arith":
+    if not by_ob:
+        pass
+    elif fam == "arith":
         import replay_arith
         fns = sorted(set(_fn_of(ob) for ob in by_ob))
         binary = replay_arith.build_binary(repo, log)
@@ -56,7 +66,7 @@ def run(pid, cfg, failed, findings, repo, scratch):
     elif fam:
         mod = __import__("replay_" + fam)
         fails_by_fn = mod.replay_all(repo, by_ob, scratch, log)
-    known, violations = [], []
+    known, violations = list(pre_known), []
     for ob, fl in sorted(by_ob.items()):
         fn = _fn_of(ob)
         if fam in ("arith", "arith_float", "arith_cmp"):
